@@ -27,7 +27,7 @@ Fixpoint reassemble (pkts : list h5packet) (cur : option (list Z)) : list (list 
   | PPaci _ _ _ _ :: t => reassemble t cur
   end.
 
-Definition unit_ok (mtu : Z) (n : list Z) : Prop := valid_nal5 n /\ zlen n < 65536 /\ zlen n <> mtu - 1.
+Definition unit_ok (mtu : Z) (n : list Z) : Prop := valid_nal5 n /\ zlen n <> mtu - 1.
 
 Lemma valid_nal5_len n : valid_nal5 n -> 3 <= zlen n.
 Proof.
@@ -99,7 +99,7 @@ Qed.
 Definition buf_units_ok (b : h5buf) : Prop := Forall (fun n => valid_nal5 n /\ zlen n < 65536) (hb_nalus b).
 
 (* one unit: what is sent now plus what stays buffered is what was buffered plus the unit *)
-Lemma nalu_reassembles mtu st b n : 4 <= mtu -> h5_donl_on st = false -> buf_ok mtu false b -> buf_units_ok b ->
+Lemma nalu_reassembles mtu st b n : 4 <= mtu <= 65535 -> h5_donl_on st = false -> buf_ok mtu false b -> buf_units_ok b ->
   unit_ok mtu n ->
   exists st' b' fs pkts emitted,
     h5_nalu mtu st b n = Ok (st', b', fs) /\ h5_donl_on st' = false /\ buf_ok mtu false b' /\ buf_units_ok b' /\
@@ -107,10 +107,11 @@ Lemma nalu_reassembles mtu st b n : 4 <= mtu -> h5_donl_on st = false -> buf_ok 
     (forall rest, reassemble (pkts ++ rest) None = emitted ++ reassemble rest None) /\
     hb_nalus b ++ [n] = emitted ++ hb_nalus b'.
 Proof.
-  intros Hm Hd Hb Hu (Hv & Hlen & Hlone). pose proof (valid_nal5_len n Hv) as H3.
+  intros Hm Hd Hb Hu (Hv & Hlone). pose proof (valid_nal5_len n Hv) as H3.
   unfold h5_nalu. rewrite Hd. replace (zlen n <? 2) with false by lia.
   destruct (zlen n + 2 + 0 <=? mtu) eqn:Efit.
   - (* the unit joins the aggregation buffer, after a flush when it would not fit *)
+    assert (Hlen : zlen n < 65536) by lia.
     set (m := h5_marginal st b n).
     assert (Hadd : forall st0 b0, h5_donl_on st0 = false -> buf_ok mtu false b0 -> buf_units_ok b0 ->
               hb_size b0 + h5_marginal st0 b0 n <= mtu ->
@@ -148,7 +149,7 @@ Proof.
     destruct n as [|h0 [|h1 [|x body']]]; try contradiction. set (body := x :: body') in *.
     destruct Hv as (Hh0 & Hh1 & _).
     assert (Hbig : mtu <= zlen (h0 :: h1 :: body)) by lia.
-    destruct (fu_unit_lossless mtu st b h0 h1 body Hm Hd Hb Hh0 Hh1 Hbig)
+    destruct (fu_unit_lossless mtu st b h0 h1 body (proj1 Hm) Hd Hb Hh0 Hh1 Hbig)
       as (st1 & out1 & fs & cs & Hrun & Hfl & Hrel & Hcat & Hall & H2).
     unfold h5_nalu in Hrun. rewrite Hd in Hrun. replace (zlen (h0 :: h1 :: body) <? 2) with false in Hrun by lia.
     rewrite Efit in Hrun. rewrite Hrun.
@@ -162,7 +163,7 @@ Proof.
     intros rest. rewrite <- app_assoc, Hr1, Hr2, Hcat. rewrite <- app_assoc. reflexivity.
 Qed.
 
-Lemma nalus_reassemble mtu : 4 <= mtu -> forall ns st b,
+Lemma nalus_reassemble mtu : 4 <= mtu <= 65535 -> forall ns st b,
   h5_donl_on st = false -> buf_ok mtu false b -> buf_units_ok b -> Forall (unit_ok mtu) ns ->
   exists st' b' fs pkts emitted,
     h5_nalus mtu st b ns = Ok (st', b', fs) /\ h5_donl_on st' = false /\ buf_ok mtu false b' /\ buf_units_ok b' /\
@@ -184,7 +185,7 @@ Proof.
 Qed.
 
 (* a whole call: every packet parses, and reassembly gives back the units, in order *)
-Theorem h265_lossless mtu st x l : 4 <= mtu -> h5_donl_on st = false ->
+Theorem h265_lossless mtu st x l : 4 <= mtu <= 65535 -> h5_donl_on st = false ->
   Forall (unit_ok mtu) (emit_nalus (x :: l)) ->
   exists st' fs pkts, h265_payload st mtu (Some (x :: l)) = Ok (st', fs) /\
     Forall2 parses fs pkts /\ reassemble pkts None = emit_nalus (x :: l).
